@@ -1515,7 +1515,12 @@ def add_invariant_checks(cls: ClassT) -> None:
     unshadowed = set()  # type: Set[str]
 
     for name in dir(cls):
-        value = getattr(cls, name)
+        try:
+            value = getattr(cls, name)
+        except AttributeError:
+            # An entry of the directory need not be readable on the class itself (*e.g.*, a descriptor which is
+            # defined only for the instances). There is nothing to be decorated then.
+            continue
 
         if name not in cls.__dict__ and _is_inherited_copy(value):
             # A base holds a wrapped copy of a member which it inherits itself. If a sibling class, which comes later
